@@ -210,7 +210,34 @@ def _reached(ctx, p, r_bal):
                         stops.add(lb2)
         start = t.get('target')
         reach = fn.reachable(start, stop=frozenset(stops)) if start is not None else set()
-        bad = [(lb, si) for (lb, si) in lits if lb in reach and lb not in stops]
+        # the decision to steer may be kept in a flag and tested again where the result is built
+        # (`let stops_short = d > max; if stops_short { interpolate } else { q = target } .. if stops_short { Advanced } else { Reached }`):
+        # a literal behind the opposite edge of a switch on the very same condition is not reached after steering
+        steer_edges = []
+        all_reach = fn.reachable(0)
+        for sb in range(fn.nb):
+            si_ = fn.switch_info(sb)
+            if si_ is None or fn.blocks[sb]['cleanup'] or sb not in all_reach:
+                continue
+            terms_, tmap_, other_ = si_
+            for key, tg in list(tmap_.items()) + [('otherwise', other_)]:
+                if bi not in fn.reachable(0, removed=frozenset([(sb, tg)])):
+                    steer_edges.append((frozenset(terms_), key, tuple(sorted(tmap_.keys()))))
+
+        def behind_opposite_edge(lb):
+            for sb in range(fn.nb):
+                si_ = fn.switch_info(sb)
+                if si_ is None or fn.blocks[sb]['cleanup']:
+                    continue
+                terms_, tmap_, other_ = si_
+                for (sterms, skey, skeys) in steer_edges:
+                    if frozenset(terms_) != sterms or tuple(sorted(tmap_.keys())) != skeys:
+                        continue
+                    for key, tg in list(tmap_.items()) + [('otherwise', other_)]:
+                        if key != skey and lb not in fn.reachable(0, removed=frozenset([(sb, tg)])):
+                            return True
+            return False
+        bad = [(lb, si) for (lb, si) in lits if lb in reach and lb not in stops and not behind_opposite_edge(lb)]
         r_bal.inst('%s: `Reached` is answered only where the added state is the target itself (%d result literal(s))' % (b.path, len(lits)),
                    ok=not bad, site=b.loc(bi))
         for o, (lb, si) in enumerate(bad):
